@@ -8,7 +8,7 @@ from __future__ import annotations
 
 from .. import planlib, refmodels, world
 from ..catalogue import mk_candles
-from ..subjects import ROUTES, build_route
+from ..subjects import ROUTES, Neighbours, build_route, sample_neighbours
 from ..core import Discard, LibError, Violation, run_property
 from ..util import snap_cores, sub_rng, tf_seconds
 
@@ -98,10 +98,12 @@ def plan(seed, subbatch):
     ops = [{"op": "new", "preload": [list(r) for r in rows[:k]]}]
     ops += world.schedule(feed, rows[k:], sizes, extras)
     fired["preload_%s" % ("none" if k == 0 else "one" if k == 1 else "all" if k == len(rows) else "some")] += 1
+    offset = cfg.choice((None, None, None, 60, 330, -210, 345))
+    neighbours = sample_neighbours(sub_rng(seed, "neighbours"), tf, offset)
     return {"format": 1, "property": ID, "seed": seed, "subbatch": subbatch,
-            "config": {"process_tz": env[0] if env else None, "route": route, "tf": tf, "base_s": base_s, "level_tf": level, "siblings": siblings,
+            "config": {"neighbours": neighbours, "process_tz": env[0] if env else None, "route": route, "tf": tf, "base_s": base_s, "level_tf": level, "siblings": siblings,
                        # timezone-aware streams (fixed offsets that do not divide the larger timeframes)
-                       "utc_offset_min": cfg.choice((None, None, None, 60, 330, -210, 345))},
+                       "utc_offset_min": offset},
             "ops": ops, "fired": dict(fired)}
 
 
@@ -131,6 +133,9 @@ def _execute(trace):
                 if kind == "new":
                     rows = op.get("preload") or []
                     delivered.extend(rows)
+                    neigh = Neighbours(cfg.get("neighbours"), rows)     # built BEFORE the subject
+                    if neigh.items:
+                        run.stats["reach:neighbour_objects_in_process"] += len(neigh.items)
                     subject, manager, view = run.call(len(rows), build_route, route, tf, rows, False, None, None, None,
                                                       cfg.get("level_tf"), cfg.get("siblings"))
                     if cfg.get("siblings"):
@@ -144,6 +149,7 @@ def _execute(trace):
                         continue
                     n_appends += 1 if rows else 0
                     delivered.extend(rows)
+                    neigh.feed(rows)
                     run.call(len(delivered), subject.append, mk_candles(rows))
                 elif kind == "recollapse":
                     for _ in range(op.get("times", 1)):
